@@ -1,6 +1,6 @@
 """C02 -- set-similarity joins return only qualifying pairs, once, with the true score."""
-from .. import calls, canon, gen, oracle
-from ..env import mk_tok
+from .. import calls, canon, enumgen, gen, oracle
+from ..env import JOINS, mk_tok
 from ..runner import Component
 
 PROPERTY = "C02"
@@ -89,4 +89,63 @@ class Random(Component):
         ctx.label("output-nonempty", n_scored > 0)
 
 
-COMPONENTS = [Random()]
+class E1Sound(Component):
+    """Soundness / row identity at scale: E1 size-sweep tables (hundreds of rows, thousands of
+    distinct tokens, every instance pair at / next to the threshold, no token shared across
+    instances), all three operators, score column on."""
+    name = "E1-sound"
+    kind = "enum"
+    exhaustive = True
+    rule = "every E1 batch x operator: each returned row is an instance pair with its true score"
+
+    def bounds(self, tier):
+        return {"N": 18 if tier == "quick" else 40, "measures": ["JACCARD", "COSINE", "DICE"],
+                "ops": [">=", ">", "="]}
+
+    def shards(self, tier):
+        return 16
+
+    def cases(self, tier):
+        for c in enumgen.e1_cases(self.bounds(tier)["N"], chunk=150):
+            for op in (">=", ">", "="):
+                d = dict(c)
+                d["op"] = op
+                yield d
+
+    def check(self, case, ctx):
+        triples = [tuple(t) for t in case["triples"]]
+        L, R = enumgen.e1_tables(triples)
+        m, t, op = case["measure"], case["threshold"], case["op"]
+        df = ctx.lib(JOINS[m], L, R, "id", "id", "v", "v", mk_tok(enumgen.WS), t, op, True,
+                     False, None, None, "l_", "r_", True, 1, False)
+        if df is None:
+            return
+        seen = set()
+        for i, j, sc in zip(df["l_id"].tolist(), df["r_id"].tolist(), df["_sim_score"].tolist()):
+            if (i, j) in seen:
+                ctx.violation("join=%s,kind=duplicate-pair" % m,
+                              "%s_join on an E1 batch: pair (%r, %r) returned twice"
+                              % (m.lower(), i, j))
+            seen.add((i, j))
+            if i != j:
+                ctx.violation("join=%s,kind=non-qualifying-pair-returned" % m,
+                              "%s_join threshold=%r op=%s on an E1 batch returned (%r, %r): rows "
+                              "of different instances share no token (sizes %r and %r)"
+                              % (m.lower(), t, op, i, j, triples[i], triples[j]))
+                continue
+            n, mm, o = triples[i]
+            if oracle.classify(m, n, mm, o, t, op) == "no":
+                ctx.violation("join=%s,kind=non-qualifying-pair-returned" % m,
+                              "%s_join threshold=%r op=%s returned the pair with sizes/overlap "
+                              "%r (similarity %r)" % (m.lower(), t, op, triples[i],
+                                                      oracle.sim_values(m, n, mm, o)))
+            if not oracle.score_ok(m, n, mm, o, sc):
+                ctx.violation("join=%s,kind=wrong-score" % m,
+                              "%s_join on an E1 batch: pair with sizes/overlap %r has _sim_score "
+                              "%r, true similarity %r" % (m.lower(), triples[i], sc,
+                                                          oracle.sim_values(m, n, mm, o)))
+        ctx.nontrivial(len(seen) > 0)
+        ctx.label("E1-sound:%s:%s" % (m, op))
+
+
+COMPONENTS = [Random(), E1Sound()]
